@@ -489,14 +489,16 @@ uint StringDictionaryPFC::searchPrefix(uchar **ptr, uint scanneable,
   uint sharedCurr = 0, sharedPrev = 0;
   int cmp = 0;
   uint id = 1;
+  bool found = false;
 
   while (true) {
     cmp = longestCommonPrefix(decoded + sharedCurr, str + sharedCurr,
                               *decLen - sharedCurr, &sharedCurr);
 
-    if (sharedCurr == strLen)
+    if (sharedCurr == strLen) {
+      found = true;
       break;
-    else {
+    } else {
       id++;
       if ((cmp > 0) || (id > scanneable))
         break;
@@ -508,7 +510,8 @@ uint StringDictionaryPFC::searchPrefix(uchar **ptr, uint scanneable,
     }
   }
 
-  return id;
+  // NORESULT tells the caller that no string in the bucket has the prefix
+  return found ? id : (uint)NORESULT;
 }
 
 uint StringDictionaryPFC::searchDistinctPrefix(uchar *ptr, uint scanneable,
